@@ -1402,3 +1402,50 @@ func ruleRecoveryCutsThePartialTail(c *eng.Ctx) {
 	}
 	c.Check(w == nil && okArg, "a partial write found when the index is rebuilt is cut off the log file", p.Pos(fn.Pos()), "after rebuildIndex: position ≤ indexed end, or s.log.Truncate(indexed end), before setupIndex succeeds", "setupIndex can succeed after a rebuild with bytes left behind the last complete message set (path "+w.String()+"): the log is opened in append mode, so the next append lands behind that garbage while its index entry points at the garbage — readers meet a torn message where an acknowledged one should be")
 }
+
+// rulePublishWaitsForTheMessagesOwnStream (R16.5 extension, shared with C18; round 12): the stream publishSync compares acks
+// with is, at every call, the Stream field of the message being published — not a value that can be "" for a message that
+// does name a stream (publishSync takes "" for "any ack will do", which is right only for a publish to a bare subject).
+func rulePublishWaitsForTheMessagesOwnStream(c *eng.Ctx) {
+	ps := c.Fn("server.(*apiServer).publishSync")
+	if ps == nil {
+		return
+	}
+	n := 0
+	for _, fn := range c.P.Funcs {
+		for _, call := range eng.CallsIn(fn, "server.apiServer.publishSync") {
+			n++
+			args := eng.AllArgs(call.Common())
+			ok := false
+			if len(args) >= 4 {
+				f, _ := eng.FieldRead(eng.Strip(args[3]))
+				ok = f != nil && f.Name() == "Stream"
+			}
+			c.Check(ok, "publishSync is told the stream of the message it publishes", c.Pos(call.(ssa.Instruction)), "publishSync(ctx, subject, msg.Stream, …)", ir.FuncKey(fn)+" hands publishSync a stream name that is not (always) the published message's Stream: with \"\" any ack on the inbox completes the publish — when a second stream is attached to the subject (the activity subject included) its ack stands in for a message this stream never stored")
+		}
+	}
+	if n == 0 {
+		c.Unresolved("a call of publishSync")
+	}
+}
+
+// ruleSteppingDownAlwaysStopsTheDispatcher (R18.3 extension; round 12): leadershipLost follows every leadershipAcquired, also
+// one that failed half-way — after BecomeLeader started the dispatcher and before the leader flag was set. Whatever the
+// flags say, a successful leadershipLost has gone through activityManager.BecomeFollower; else the dispatcher of the failed
+// term runs next to the one the next term starts and both publish the same range of the Raft log.
+func ruleSteppingDownAlwaysStopsTheDispatcher(c *eng.Ctx) {
+	fn := c.Fn("server.(*Server).leadershipLost")
+	if fn == nil {
+		return
+	}
+	q := &eng.PathQuery{Fn: fn, FromEntry: true, Target: func(x ssa.Instruction) bool {
+		r, isR := x.(*ssa.Return)
+		if !isR {
+			return false
+		}
+		rv := eng.RetVals(r)
+		return len(rv) == 1 && eng.NilConst(rv[0])
+	}, CutInstr: eng.IsCallTo("server.activityManager.BecomeFollower")}
+	w := q.Find()
+	c.Check(w == nil, "a completed step-down has stopped the activity dispatcher", c.P.Pos(fn.Pos()), "every successful return of leadershipLost passes activity.BecomeFollower()", "leadershipLost can succeed without BecomeFollower (path "+w.String()+"): after a promotion that failed behind BecomeLeader the dispatcher of that term keeps running, the next term starts a second one, and the two publish the same Raft log range concurrently — duplicates out of commit order")
+}
